@@ -14,6 +14,7 @@ import (
 	"net"
 	"net/http"
 	"os"
+	"os/exec"
 	"runtime"
 	"strings"
 	"sync"
@@ -29,6 +30,13 @@ func RealWorker() {
 	srv := server.NewZnPMServer(server.ZnPMServerConfig{})
 	srv.SetHandler(http.HandlerFunc(func(w http.ResponseWriter, r *http.Request) {
 		switch {
+		case strings.HasPrefix(r.URL.Path, "/child"):
+			// the request starts a helper program that inherits the worker's output files and
+			// outlives it (a handler that runs an external program which hangs), then hangs itself
+			helper := exec.Command("sleep", "40."+r.URL.Query().Get("m"))
+			helper.Stdout, helper.Stderr = os.Stdout, os.Stderr
+			_ = helper.Start()
+			select {}
 		case strings.HasPrefix(r.URL.Path, "/hang"):
 			select {} // never returns: the worker's time-out must fire
 		case strings.HasPrefix(r.URL.Path, "/slow"):
@@ -43,7 +51,8 @@ func RealWorker() {
 	}
 }
 
-// RealParams: Requests is a sequence over F (fast), S (slow, 300 ms), H (hangs), P (no request:
+// RealParams: Requests is a sequence over F (fast), S (slow, 300 ms), H (hangs), C (starts a helper
+// program that inherits the worker's output files and outlives it, then hangs), P (no request:
 // wait for everything in flight, then stay idle for 1.6 s, longer than the 1 s --timeout); request
 // i+1 is issued as soon as request i has been picked up by a worker (its worker
 // reported BUSY) — arrivals are ordered by events, not by sleeping.
@@ -141,6 +150,9 @@ func RealMaster(p RealParams) (res RealResult) {
 		if pipe != "" {
 			os.Remove("/tmp/zinc-server-pipe-" + pipe)
 		}
+		if strings.Contains(p.Requests, "C") {
+			_ = exec.Command("pkill", "-f", fmt.Sprintf("sleep 40.%d", os.Getpid())).Run()
+		}
 		res.Reports = reports
 		res.MaxLive = maxLive
 		res.FinalLive = live
@@ -169,15 +181,19 @@ func RealMaster(p RealParams) (res RealResult) {
 	}
 	outc := make(chan outcome, len(p.Requests))
 	client := func(i int, kind byte) {
-		path := map[byte]string{'F': "/fast", 'S': "/slow", 'H': "/hang"}[kind]
+		path := map[byte]string{'F': "/fast", 'S': "/slow", 'H': "/hang", 'C': "/child"}[kind]
+		query := ""
+		if kind == 'C' {
+			query = fmt.Sprintf("?m=%d", os.Getpid())
+		}
 		conn, err := net.DialTimeout("tcp", addr, 5*time.Second)
 		if err != nil {
 			outc <- outcome{i, "dial-error " + err.Error()}
 			return
 		}
 		defer conn.Close()
-		conn.SetDeadline(time.Now().Add(20 * time.Second))
-		fmt.Fprintf(conn, "GET %s%d HTTP/1.1\r\nHost: x\r\n\r\n", path, i)
+		conn.SetDeadline(time.Now().Add(9 * time.Second))
+		fmt.Fprintf(conn, "GET %s%d%s HTTP/1.1\r\nHost: x\r\n\r\n", path, i, query)
 		b, err := io.ReadAll(conn)
 		s := string(b)
 		switch {
@@ -198,8 +214,8 @@ func RealMaster(p RealParams) (res RealResult) {
 			case o := <-outc:
 				res.Outcomes[o.idx] = o.text
 				received++
-			case <-time.After(30 * time.Second):
-				res.Violations = append(res.Violations, "a request got neither a response nor a closed connection within 30 s")
+			case <-time.After(12 * time.Second):
+				res.Violations = append(res.Violations, "a request got neither a response nor a closed connection within 12 s")
 				return false
 			}
 		}
@@ -233,7 +249,7 @@ func RealMaster(p RealParams) (res RealResult) {
 		issued++
 		go client(i, p.Requests[i])
 		// wait until some worker picked it up (BUSY report), bounded
-		end := time.Now().Add(10 * time.Second)
+		end := time.Now().Add(4 * time.Second)
 		for time.Now().Before(end) {
 			mu.Lock()
 			ok := busyCount > before
@@ -252,7 +268,7 @@ func RealMaster(p RealParams) (res RealResult) {
 		kind := p.Requests[i]
 		switch {
 		case kind == 'P' || kind == 'G':
-		case kind == 'H':
+		case kind == 'H' || kind == 'C':
 			if !strings.HasPrefix(o, "closed-without-response") {
 				res.Violations = append(res.Violations, fmt.Sprintf("hanging request %d: expected the connection to be closed when its worker is terminated, got %s", i, o))
 			}
@@ -267,8 +283,8 @@ func RealMaster(p RealParams) (res RealResult) {
 	}
 	// quiet again: the pool returns to at least init-procs (generous bound: respawn delay is 100 ms)
 	time.Sleep(300 * time.Millisecond)
-	if !waitLive(p.Init, 15*time.Second) {
-		res.Violations = append(res.Violations, fmt.Sprintf("pool did not return to init-procs %d within 15 s of quiet", p.Init))
+	if !waitLive(p.Init, 8*time.Second) {
+		res.Violations = append(res.Violations, fmt.Sprintf("pool did not return to init-procs %d within 8 s of quiet", p.Init))
 	}
 	return
 }
